@@ -103,6 +103,9 @@ def check(ctx):
                     sel(fld(th, 'compensations_'), idiv(idx, TWO)), v]
             names = ['sum cell', 'sum-of-squares cell', 'compensation cell', 'value']
             for got, w_, nm in zip(a['args'], want, names):
+                # the cells as they are on the paths that reach the accumulation (helpers that report
+                # "outside" through a flag leave conditions in the term that the path excludes)
+                got = simplify_under(got, a['pc'])
                 if got[0] == 'sel' and w_[0] == 'sel' and got[1] == w_[1]:
                     check_equal(ctx, 'R1.flat_index', where + ':' + nm, 'index of the %s (x fastest, then y)' % nm,
                                 got[2], w_[2])
@@ -119,7 +122,7 @@ def check(ctx):
                 env = base
                 for cond in a['pc']:
                     env = fp.refine(cond, env, True)
-                red = fp.resolve(final, env)
+                red = fp.resolve(simplify_under(final, a['pc']), env)
                 want_c = T.vupd(fld(th, cname), cell, add(sel(fld(th, cname), cell), ONE))
                 ok = False
                 if isinstance(red, tuple) and red[0] == 'vupd' and red[1] == fld(th, cname):
